@@ -580,7 +580,7 @@ pub fn followups(case: &Case, v: &BoxSubj, l: &mut Local) {
     let aads: Vec<&[u8]> = vec![b"", b"x", &aad300];
     let detached: Vec<&[u8]> = vec![b"", b"y", &aad300];
     let casestr = format!("{} {} {}", ty_name(case.ty), case.entry.name(), hex(case.bytes));
-    let cx = crate::spaces::crypto::Cx { pid: case.pid, space: case.space, case: &casestr, exact: false, fams: "", slots_only: false };
+    let cx = crate::spaces::crypto::Cx { pid: case.pid, space: case.space, case: &casestr, exact: false, fams: "", slots_only: false, body_override: None };
     if crate::spaces::crypto::on_any(&cx, v.as_any(), &aads, &detached, l) {
         l.count("followups.crypto_helpers");
     }
